@@ -106,6 +106,8 @@ def check(case, ctx):
         for k in (1, 2, 3):
             lat2 = float(np.clip(lat + 7.3 * k * (-1) ** k, -88.9, 88.9))
             lon2 = float(((lon + 41.0 * k + 180.0) % 360.0) - 180.0)
+            if k == 2:      # a reader in between: looking up the properties of a shipped coefficient file (any epoch) is not a query and changes nothing
+                call(lambda: _reused["w"].get_properties(["WMM2015", "WMM2020", "WMM2025"][int(abs(lat) * 10) % 3] + "/WMM.COF"))
             o2 = call(lambda: _reused["w"].magnetic_field(lat2, lon2, h, date=None))
             if not ctx.returned(o2, clause="no-exception[date=None]", route="magnetic_field/reused-object"):
                 _reused.pop("w", None)
